@@ -14,3 +14,6 @@ def check(ctx: Ctx) -> None:
                           "cancel(id) meets AlreadyCancelled instead of delivering another CancelledError")
     check_lifecycle(ctx, "R06.4", {"cancel", "loc"})
     S.r_handoff(ctx, "R02.1")
+    # "exactly the named tasks": an id names one task only if no two tasks are ever given the same id (shared with C11)
+    from . import naming as N
+    N.r_id_discipline(ctx, "R06.5")
